@@ -7,6 +7,8 @@ toolchain go1.23.5
 require (
 	github.com/evolbioinfo/goalign v0.3.7-0.20230906113011-fcecb09f9d43
 	github.com/evolbioinfo/gotree v0.0.0
+	github.com/spf13/cobra v1.5.0
+	github.com/spf13/pflag v1.0.5
 )
 
 require (
@@ -28,8 +30,6 @@ require (
 	github.com/llgcode/draw2d v0.0.0-20210313082411-577c1ead272a // indirect
 	github.com/mattn/go-colorable v0.1.8 // indirect
 	github.com/mattn/go-isatty v0.0.12 // indirect
-	github.com/spf13/cobra v1.5.0 // indirect
-	github.com/spf13/pflag v1.0.5 // indirect
 	golang.org/x/image v0.11.0 // indirect
 	golang.org/x/sys v0.11.0 // indirect
 	golang.org/x/text v0.12.0 // indirect
